@@ -23,7 +23,7 @@ def base_frame(variant=0, n_rep=4):
     if variant == 1:
         q = [v * 0.5 - 7 for v in q]
         c = [{"a": "z", "b": "y", "c": "x"}[v] for v in c]
-    X = pd.DataFrame({"q": pd.Series(q, dtype=float), "c": pd.Series(c, dtype=object), "o": pd.Series(o, dtype=object), "other": list(range(3 * n_rep))})
+    X = pd.DataFrame({"q": pd.Series(q, dtype=float), "c": pd.Series(c, dtype=object), "o": pd.Series(o, dtype=object), "other": list(range(3 * n_rep)), "txt": [f"id{i}" for i in range(3 * n_rep)]})
     if variant == 2:
         X.index = [f"r{i}" for i in range(len(X))]
     if variant == 3:  # rare categories (default group) and missing values: a re-fit would regroup them
@@ -46,7 +46,23 @@ def target(cls, X, pat):
 NO_ORDINAL = {"on": False}
 
 
+def make_only_id(cls):
+    """a single id-like qualitative feature: every value is rarer than min_freq, the fit drops it (successfully)"""
+    from AutoCarver import BinaryCarver, ContinuousCarver
+    from AutoCarver.discretizers import Discretizer, QualitativeDiscretizer
+
+    if cls == "BinaryCarver":
+        return BinaryCarver(sort_by="cramerv", min_freq=0.2, qualitative_features=["txt"], copy=True)
+    if cls == "ContinuousCarver":
+        return ContinuousCarver(min_freq=0.2, qualitative_features=["txt"], copy=True)
+    if cls == "Discretizer":
+        return Discretizer([], ["txt"], 0.2, copy=True)
+    return QualitativeDiscretizer(["txt"], 0.2, copy=True)
+
+
 def make(cls, **over):
+    if NO_ORDINAL["on"] == "only_id":
+        return make_only_id(cls)
     if NO_ORDINAL["on"] and cls not in ("QuantitativeDiscretizer",):
         return make_no_ordinal(cls, **over)
     return make_all(cls, **over)
@@ -257,7 +273,7 @@ def call(obj, action):
 
 
 def run_case(case):
-    NO_ORDINAL["on"] = bool(case.get("no_ordinal"))
+    NO_ORDINAL["on"] = case.get("no_ordinal") or False
     try:
         return _run_case(case)
     finally:
@@ -326,6 +342,9 @@ def run(tier, seed, rep):
             for hist in ("fresh", "fitted"):
                 for v in variants:
                     cases.append({"cls": cls, "fd": fd, "history": hist, "variant": v})
+                    # an object whose first (successful) fit dropped every feature must refuse a second fit as well
+                    if fd["fault"] == "refit" and hist == "fitted" and cls in ("BinaryCarver", "ContinuousCarver", "Discretizer", "QualitativeDiscretizer"):
+                        cases.append({"cls": cls, "fd": fd, "history": hist, "variant": v, "no_ordinal": "only_id"})
                     # the same without any ordinal feature (value-level / refit / type faults only)
                     if fd["fault"] in ("refit", "y_nan", "y_index", "X_type", "y_classes", "transform_X_type") and "feature" not in fd:
                         cases.append({"cls": cls, "fd": fd, "history": hist, "variant": v, "no_ordinal": True})
